@@ -1119,7 +1119,14 @@ func (fr *Frame) execBuiltin(b *ssa.Builtin, c *ssa.CallCommon, pos token.Pos, s
 	case "close":
 		return &StructV{}
 	case "clear":
-		panic(unsupported("clear builtin"))
+		if mt, ok := under(c.Args[0].Type()).(*types.Map); ok {
+			// clear(m): no key is left, len(m) == 0 (a write to the whole map: frame-checked like delete)
+			ref := fr.val(c.Args[0]).(Scalar).T
+			fr.frameCheck(st, Ptr{Root: "M|" + canon(mt), Base: ref}, pos)
+			vc.mapClear(st, ref, mt)
+			return &StructV{}
+		}
+		panic(unsupported("clear builtin on slices"))
 	}
 	panic(unsupported("builtin " + b.Name() + " on " + c.Args[0].Type().String()))
 }
